@@ -1,5 +1,6 @@
 //! vcore: case types, interpreters, reference models and oracles for the synth-utils-rs properties C01..C20.
 pub mod adsr;
+pub mod api;
 pub mod clamp;
 pub mod common;
 pub mod glide;
